@@ -539,6 +539,11 @@ class Response(_SansIOResponse):
         ):
             iterable: t.Iterable[bytes] = ()
         elif self.direct_passthrough:
+            if self._on_close:
+                # The server closes the iterable it is given, not this
+                # response, make that run the registered callbacks too.
+                return ClosingIterator(self.response, self._on_close)  # type: ignore
+
             return self.response  # type: ignore
         else:
             iterable = self.iter_encoded()
